@@ -1,4 +1,3 @@
 package main
 
-
 func runWorkerIfRequested() bool { return false }
